@@ -401,6 +401,34 @@ def execute(sc):
                 if o is not None and roles1 and roles1[0] != o.notice[1]:
                     V.add('C04/role', 'relational', 'connection %s is %s with neighbours, %s alone' % (nm, o.notice[1], roles1[0]))
                 V.bump('solo_replays')
+            # (4) `connection X` + `list` for every connection in turn: what is listed for X is X's own history, whatever was
+            # listed for its neighbours a moment ago (connections often have equally many messages here)
+            if not V.list and getattr(res, 'controller', None) is not None:
+                import traceback
+                for wc, nm in sorted(names.items(), key=lambda kv: W.unletters(kv[1])):
+                    mark = res.rec.seq
+                    try:
+                        res.controller.process_command('connection ' + nm)
+                        res.controller.process_command('list')
+                    except Exception:  # noqa
+                        V.add('C04/routing', 'exception:list', traceback.format_exc()[-1200:])
+                        break
+                    listed = [L.classify(s_, p_) for s_, k_, p_ in res.rec.events if k_ == 'out' and s_ >= mark]
+                    rows = [strip_projection(o.text)[0] for o in listed if o.kind == 'msg']
+                    wrong = [o.conn for o in listed if o.kind == 'msg' and o.conn not in (nm, '')]
+                    mine = [a for a, la in proj.get(nm, [])]
+                    if wrong or rows != mine:
+                        n = 0
+                        while n < min(len(rows), len(mine)) and rows[n] == mine[n]:
+                            n += 1
+                        V.add('C04/listing', 'per-connection-list', '`connection %s` + `list` shows %d messages (of connections %r), its live view had %d; first '
+                              'difference at %d: %r vs %r' % (nm, len(rows), sorted(set(wrong)) or [nm], len(mine), n,
+                                                              rows[n] if n < len(rows) else None, mine[n] if n < len(mine) else None))
+                        break
+                    V.bump('per_connection_listings')
+                counts = [len(v) for v in proj.values()]
+                if len(counts) != len(set(counts)):
+                    V.bump('probe_connections_with_equal_message_counts')
     V.bump('connections', len(names))
     nmsg = len(seq)
     sample = {'config': sc['config'], 'interleaving': inter[:80], 'messages': nmsg}
